@@ -5,13 +5,13 @@
 //!        specs-harness dispatch <graphs-file>     (property C11, see dispatch.rs)
 //!        specs-harness conc <cases-file>           (lock-step interleavings, see conc.rs)
 //!        specs-harness conc-stress <file>          (real threads, predicate only)
+//!        specs-harness saveload <histories-file>        (specs::saveload, SimpleMarker)
+//!        specs-harness saveload-uuid <histories-file>   (specs::saveload, UuidMarker)
+//! output: one line per history, the outputs of the ops separated by " | ".
 mod comps;
 #[cfg(has_verif_sched)]
 mod conc;
 mod dispatch;
-//!        specs-harness saveload <histories-file>        (specs::saveload, SimpleMarker)
-//!        specs-harness saveload-uuid <histories-file>   (specs::saveload, UuidMarker)
-//! output: one line per history, the outputs of the ops separated by " | ".
 mod saveload;
 mod world_exec;
 
